@@ -10,7 +10,7 @@ ID = "C16"
 RUN_MODULE = "Spec.TTLMap Model.Tags Model.Txn Model.TxnFault Run.C16"
 EXPLAIN = "explain"
 RULE = ("12 transactional programs (set / incr / delete / set_many / get over keys a, b, optionally a second backend registered under prefix "
-        "'p:') x 3 modes; a clean run records the trace of underlying backend commands (set_lock, get, delete_many, set_many, unlock ...); then "
+        "'p:') x 3 modes, the block written as a context manager, as a decorated function, or with mode and timeout taken from set_transaction_mode / set_transaction_timeout; a clean run records the trace of underlying backend commands (set_lock, get, delete_many, set_many, unlock ...); then "
         "EVERY single position of that trace is made to raise (quick) and every pair of positions (thorough), in a fresh cache each time; "
         "observed: exception seen by the caller, whether a write issued right after the block reaches the store, lock keys left, data of both "
         "stores. non-trivial: the fault hits the commit or the lock release (not the first body command)")
@@ -102,15 +102,28 @@ def _run(case):
                 wrap(bi, mem, name)
         mode = {"fast": TransactionMode.FAST, "locked": TransactionMode.LOCKED, "serializable": TransactionMode.SERIALIZABLE}[case["mode"]]
         raised = None
+        async def body():
+            for b, c in prog:
+                if c[0] == "set": await cache.set(c[1], c[2])
+                elif c[0] == "incr": await cache.incr(c[1])
+                elif c[0] == "delete": await cache.delete(c[1])
+                elif c[0] == "set_many": await cache.set_many({k: v for k, v in c[1]})
+                elif c[0] == "get": await cache.get(c[1])
+            state["phase"] = "exit"
+        # three forms of the same block, chosen by the case: context manager, decorated function, and the timeout taken from
+        # set_transaction_timeout() instead of the call (never the default 10 s: the TTL of a lock left behind must be this one)
+        form = (case["prog"] + sum(case["faults"])) % 3
         try:
-            async with cache.transaction(mode=mode, timeout=3):      # not the default 10 s: the TTL of a lock left behind must be this one
-                for b, c in prog:
-                    if c[0] == "set": await cache.set(c[1], c[2])
-                    elif c[0] == "incr": await cache.incr(c[1])
-                    elif c[0] == "delete": await cache.delete(c[1])
-                    elif c[0] == "set_many": await cache.set_many({k: v for k, v in c[1]})
-                    elif c[0] == "get": await cache.get(c[1])
-                state["phase"] = "exit"
+            if form == 0:
+                async with cache.transaction(mode=mode, timeout=3):
+                    await body()
+            elif form == 1:
+                await cache.transaction(mode=mode, timeout=3)(body)()
+            else:
+                cache.set_transaction_timeout(3)
+                cache.set_transaction_mode(mode)
+                async with cache.transaction():
+                    await body()
         except Fault:
             raised = "Fault"
         except Exception as e:  # noqa
